@@ -3,7 +3,7 @@
 //
 //   val_harness run <scenarios.ndjson> [withdoc]
 //
-// Every scenario line lists the archives ("archs") and the media ("media": mem | sstream | short<k> - see vh::MakeStream)
+// Every scenario line lists the archives ("archs") and the media ("media": mem | file | sstream | short<k> - see vh::MakeStream)
 // on which it is executed: one run per (scenario, archive, medium); a stream medium goes through the std::istream
 // overload of LoadObject.
 //
@@ -295,6 +295,15 @@ std::string RunScenario(const Scenario& s, const std::string& medium, bool withD
 		try
 		{
 			if (medium == "mem") LoadObject<TArchive>(target, data, options);
+			else if (medium == "file")
+			{
+				// the file entry point: the document is written to a scratch file and loaded with LoadObjectFromFile()
+				const std::string path = "/tmp/val_harness_" + std::to_string(getpid()) + ".doc";
+				{ std::ofstream f(path, std::ios::binary | std::ios::trunc); f.write(data.data(), static_cast<std::streamsize>(data.size())); }
+				try { LoadObjectFromFile<TArchive>(target, path, options); }
+				catch (...) { unlink(path.c_str()); throw; }
+				unlink(path.c_str());
+			}
 			else
 			{
 				auto holder = vh::MakeStream(medium, std::string(data.data(), data.size()));
